@@ -87,8 +87,9 @@ class Landing:
     released, or nothing else in the system can run; action 'kill': the process dies there (SIGKILL).
     """
 
-    def __init__(self, world, kind, k, action="hold", select=None):
+    def __init__(self, world, kind, k, action="hold", select=None, delay=3.0):
         self.select = select
+        self.delay = delay
         self.w = world
         self.sim = world.sim
         self.kind = kind
@@ -137,6 +138,9 @@ class Landing:
             else:
                 simos.kill_plain_pid(self.sim, a.pid)
             raise Killed()
+        if self.action == "delay":
+            self.sim.sleep(self.delay)      # a slow actor: e.g. a forwarding thread busy rebuilding a large result
+            return
         if self.action == "hold":
             a.hold = True
             try:
@@ -174,6 +178,10 @@ class Landing:
 
     def release(self):
         self.released = True
+
+
+def frontend_actor(a):
+    return a.kind == "thread" and "(remote front)" in (a.name or "")
 
 
 def observe(w):
